@@ -480,7 +480,7 @@ Proof.
         match proposer with
         | None => Ok (s, HandleProposedHeaderBadSignature)
         | Some key =>
-          if negb (verify_prop key (hd_hash hd) (ph_round p) (ph_sig p)) then Ok (s, HandleProposedHeaderBadSignature)
+          if negb (verify_prop key (ph_content p) (ph_round p) (ph_sig p)) then Ok (s, HandleProposedHeaderBadSignature)
           else if negb (hd_height hd =? k_init_h s) && negb (bytes_eqb (hd_prev hd) prev_hash)
           then Ok (s, HandleProposedHeaderBadBlockHash)
           else if negb (bytes_eqb (vs_pkh prev_vs) (cp_pkh (hd_pcp hd)))
